@@ -411,8 +411,16 @@ def put_data_tie(run, n):
         r = run.rng("put-data", c)
         ni, nvis, nf = r.randint(1, 3), r.randint(1, 4), r.randint(1, 3)
         p = r.choice([0.2, 0.5, 0.8])
-        mask = torch.tensor([[[0.0 if r.random() < p else 1.0 for _ in range(nf)] for _ in range(nvis)] for _ in range(ni)])
-        ds = types.SimpleNamespace(values=torch.zeros(ni, nvis, nf), mask=mask, timepoints=torch.zeros(ni, nvis))
+        # like a real Dataset: individual i has n_real[i] visits, the slots after them are padding (mask 0); a real visit may
+        # have every feature missing (it is kept by the reader with drop_full_nan=False)
+        n_real = [r.randint(1, nvis) for _ in range(ni)]
+        n_real[r.randrange(ni)] = nvis
+        mask = torch.tensor([[[0.0 if (v >= n_real[i] or r.random() < p) else 1.0 for _ in range(nf)] for v in range(nvis)] for i in range(ni)])
+        ds = types.SimpleNamespace(values=torch.zeros(ni, nvis, nf), mask=mask, timepoints=torch.zeros(ni, nvis),
+                                   n_visits_per_individual=list(n_real), n_visits_max=nvis, n_visits=sum(n_real), n_individuals=ni,
+                                   dimension=nf, indices=[str(i) for i in range(ni)], headers=[f"Y{j}" for j in range(nf)],
+                                   n_observations=int(mask.sum().item()), n_observations_per_ft=mask.sum(dim=(0, 1)).to(torch.int64),
+                                   event_time=None, event_bool=None, covariates=None)
         st = {}
         type(model).put_data_variables(model, st, ds)
         tw, yw = st["t"].weight, st["y"].weight
